@@ -329,3 +329,7 @@ V("c12-leaf-longer-key-accepted", "C12", BN, "            if keypath:\n         
 V("c12-handler-args-swapped", "C12", BN, "            return self._set_branch_node(\n                keypath, nodetype, left_child, right_child, value, if_delete_subtrie\n            )", "            return self._set_branch_node(\n                keypath, nodetype, right_child, left_child, value, if_delete_subtrie\n            )", rule="SETTAB")
 V("c14-depth-wrong", "C14", SM, "        self.depth = key_size * 8  # depth is number of bits in the key", "        self.depth = key_size * 4  # depth is number of bits in the key", rule="SMTINIT")
 V("c14-init-from-blank", "C14", SM, "        node = self._default  # Default leaf node", "        node = BLANK_NODE  # Default leaf node", rule="SMTINIT")
+V("c12-default-subtrie-true", "C12", BN, "    def _set(self, node_hash, keypath, value, if_delete_subtrie=False):", "    def _set(self, node_hash, keypath, value, if_delete_subtrie=True):", rule="DEFAULTS")
+V("c14-default-key-size", "C14", SM, "    def __init__(self, key_size: int = 32, default: bytes = BLANK_NODE):", "    def __init__(self, key_size: int = 20, default: bytes = BLANK_NODE):", rule="DEFAULTS")
+V("c12-byte0-wrong", "C12", "trie/constants.py", "BYTE_0 = bytes([0])", "BYTE_0 = bytes(0)", rule="DEFAULTS")
+V("c01-default-prune", "C01", HX, "    def __init__(self, db, root_hash=BLANK_NODE_HASH, prune=False, ref_count=None):", "    def __init__(self, db, root_hash=BLANK_NODE_HASH, prune=True, ref_count=None):", rule="DEFAULTS")
